@@ -44,6 +44,7 @@ type UnitResult struct {
 	AssertsConcrete int `json:"asserts_concrete"`
 	AssertQueries   int `json:"assert_queries"`
 	AssertsProved   int `json:"asserts_proved"`
+	AssertsByFacts  int `json:"asserts_by_path_facts"`
 	UnknownFeas     int `json:"unknown_feasibility"`
 	ReachedEnd      int `json:"reached_end"`
 
